@@ -208,6 +208,91 @@ def twins_extra_handler_and_filter(fn_name, src):
         yield "extra-handler-class", src.replace("        dnaio.FileFormatError,\n        CommandLineError,\n    ) as e:", "        dnaio.FileFormatError,\n        UnicodeDecodeError,\n        CommandLineError,\n    ) as e:")
 
 
+
+def _terminates(stmts):
+    return bool(stmts) and isinstance(stmts[-1], (ast.Return, ast.Raise, ast.Continue, ast.Break))
+
+
+def twins_else_after_jump(fn_name, src):
+    """if c: ...; return/raise/continue/break   <rest>      ->  if c: ... else: <rest>     (and the reverse direction:
+    if c: <jump> else: <rest>  ->  if c: <jump>; <rest>)"""
+    tree = ast.parse(src)
+
+    def sites_of(t):
+        out = []
+        for n in ast.walk(t):
+            for field in ("body", "orelse", "finalbody"):
+                blk = getattr(n, field, None)
+                if not isinstance(blk, list):
+                    continue
+                for i, st in enumerate(blk):
+                    if isinstance(st, ast.If) and _terminates(st.body):
+                        if not st.orelse and i + 1 < len(blk) and not isinstance(n, ast.Module):
+                            out.append(("wrap", n, field, i))
+                        elif st.orelse and not (len(st.orelse) == 1 and isinstance(st.orelse[0], ast.If)):
+                            out.append(("unwrap", n, field, i))
+        return out
+
+    n_sites = len(sites_of(tree))
+    for k in range(n_sites):
+        if not _want(k):
+            continue
+        t2 = ast.parse(src)
+        kind, n, field, i = sites_of(t2)[k]
+        blk = getattr(n, field)
+        st = blk[i]
+        if kind == "wrap":
+            st.orelse = blk[i + 1:]
+            del blk[i + 1:]
+        else:
+            rest = st.orelse
+            st.orelse = []
+            blk[i + 1:i + 1] = rest
+        ast.fix_missing_locations(t2)
+        yield f"else-after-jump:{fn_name}:{st.lineno}:{kind}", ast.unparse(t2)
+
+
+def twins_nested_and(fn_name, src):
+    """if a and b: X   (no else)  ->  if a: if b: X"""
+    tree = ast.parse(src)
+
+    def eligible(n):
+        return isinstance(n, ast.If) and not n.orelse and isinstance(n.test, ast.BoolOp) and isinstance(n.test.op, ast.And) and len(n.test.values) == 2
+
+    sites = [n for n in ast.walk(tree) if eligible(n)]
+    for k in range(len(sites)):
+        if not _want(k):
+            continue
+        t2 = ast.parse(src)
+        n = [x for x in ast.walk(t2) if eligible(x)][k]
+        a, b = n.test.values
+        inner = ast.If(test=b, body=n.body, orelse=[])
+        n.test = a
+        n.body = [inner]
+        ast.fix_missing_locations(t2)
+        yield f"nested-and:{fn_name}:{sites[k].lineno}", ast.unparse(t2)
+
+
+def twins_demorgan(fn_name, src):
+    """a or b (as an if/while test)  ->  not (not a and not b);   a and b  ->  not (not a or not b)"""
+    tree = ast.parse(src)
+
+    def eligible(n):
+        return isinstance(n, (ast.If, ast.While)) and isinstance(n.test, ast.BoolOp) and len(n.test.values) == 2
+
+    sites = [n for n in ast.walk(tree) if eligible(n)]
+    for k in range(len(sites)):
+        if not _want(k):
+            continue
+        t2 = ast.parse(src)
+        n = [x for x in ast.walk(t2) if eligible(x)][k]
+        a, b = n.test.values
+        op = ast.And() if isinstance(n.test.op, ast.Or) else ast.Or()
+        n.test = ast.UnaryOp(op=ast.Not(), operand=ast.BoolOp(op=op, values=[ast.UnaryOp(op=ast.Not(), operand=a), ast.UnaryOp(op=ast.Not(), operand=b)]))
+        ast.fix_missing_locations(t2)
+        yield f"demorgan:{fn_name}:{sites[k].lineno}", ast.unparse(t2)
+
+
 PYX_RENAMES = [
     ("_align.pyx", "cur_effective_length", "eff_len"),
     ("_align.pyx", "best_length", "len_of_best"),
@@ -240,6 +325,9 @@ FAMILIES = {
     "ifexp-to-if": twins_ifexp_to_if,
     "augassign": twins_augassign,
     "permissive": twins_extra_handler_and_filter,
+    "else-after-jump": twins_else_after_jump,
+    "nested-and": twins_nested_and,
+    "demorgan": twins_demorgan,
 }
 
 
@@ -273,7 +361,29 @@ PROPS = None
 VERBOSE = False
 
 
+class _Timeout(BaseException):
+    pass
+
+
+def _alarm(signum, frame):
+    raise _Timeout()
+
+
 def run_one(job):
+    tid, fn, new = job
+    import signal
+
+    signal.signal(signal.SIGALRM, _alarm)
+    signal.alarm(int(os.environ.get("SA_TWIN_TIMEOUT", "300")))
+    try:
+        return _run_one(job)
+    except _Timeout:
+        return tid, {"engine": (2, ["timeout: the analysis of this variant did not finish"])}, 300.0
+    finally:
+        signal.alarm(0)
+
+
+def _run_one(job):
     tid, fn, new = job
     from .__main__ import run_property
 
